@@ -95,6 +95,12 @@ def run_case(case, tier):
             res.update(verdict="inconclusive", reason="oracle-unsupported", detail=final.error)
             return res
         ai = S.aux_inits(final.ast, src_vars, inits)
+        av = K.abstraction_values(program, prog, params)
+        if av is None:
+            res.update(verdict="inconclusive", reason="abstraction-outside-oracle")
+            return res
+        params = dict(params)
+        params.update(av)
         try:
             eng = Engine(final.ast, params, ai, max_states=20000 if tier == "quick" else 100000)
             dists = eng.run(N)
